@@ -950,10 +950,7 @@ class Molecules:
                 shift_corrected
             )
         else:
-            shift_corrected = rotator.apply(shift)
-            return self.translate_internal(shift_corrected).rotate_by_rotvec_internal(
-                rotvec
-            )
+            return self.translate_internal(shift).rotate_by_rotvec_internal(rotvec)
 
     def concat_with(
         self,
